@@ -42,6 +42,89 @@ CHARSETS = [
     ("gb2312", CN),
     ("big5", "中文郵件"),
 ]
+
+# ----------------------------------------------------------------------------- repertoires
+# "any charset" = every part of what the charset can carry: for each charset the complete set of characters that
+# round-trip strictly through the codec, cut into parts (single-byte charsets: the four 32-byte rows of the high half,
+# so iso-8859-1 has its C1 controls U+0080..U+009F as a part of their own; multi-byte charsets: Unicode rows cp>>8).
+# Left out: C0 controls and DEL (not text in a 7bit body), CR/LF (line structure is generated separately).
+_REP_CACHE: dict = {}
+_ASTRAL = [0x1F600, 0x1F64F, 0x10000, 0x1D11E, 0x20000, 0x2A6D6, 0xE0001, 0xFFFFD, 0x10FFFD]
+
+
+def repertoire(charset):
+    """[[chars of one part], ...] of everything `charset` encodes and decodes back to itself (non-ASCII only)."""
+    if charset in _REP_CACHE:
+        return _REP_CACHE[charset]
+    parts: dict = {}
+    if charset == "us-ascii":
+        cps = []
+    elif not any(len(d) == 1 and d != "\ufffd" for d in (bytes(q).decode(charset, "replace") for q in
+                                                          ([0x81, 0x40], [0xB0, 0xA1], [0xA4, 0x40], [0xC3, 0xA9]))):   # single-byte charset
+        for b in range(0x80, 0x100):
+            try:
+                ch = bytes([b]).decode(charset)
+            except UnicodeDecodeError:
+                continue
+            if ch.encode(charset) == bytes([b]):
+                parts.setdefault(b >> 5, []).append(ch)
+        cps = None
+    else:
+        cps = list(range(0x80, 0xD800)) + list(range(0xE000, 0x10000)) + (_ASTRAL if charset == "utf-8" else [])
+    for cp in cps or []:
+        ch = chr(cp)
+        try:
+            if ch.encode(charset).decode(charset) != ch:
+                continue
+        except (UnicodeEncodeError, UnicodeDecodeError):
+            continue
+        parts.setdefault(cp >> 8, []).append(ch)
+    _REP_CACHE[charset] = [parts[k] for k in sorted(parts)]
+    return _REP_CACHE[charset]
+
+
+def alphabet(rng, charset, base):
+    """the fixed sample letters plus a dozen characters drawn part-uniformly from the whole repertoire"""
+    parts = repertoire(charset)
+    if not parts:
+        return base
+    return base + "".join(rng.choice(rng.choice(parts)) for _ in range(12))
+
+
+# white space that must survive inside a decoded header / body line exactly as written
+WS_ASCII = ["  ", "   ", "\t", " \t", "\t ", "\t\t", "    "]
+WS_UNICODE = ["\u00a0", "\u3000", "\u2003", " \u00a0", "\u00a0 ", "\u00a0\u00a0", "\u3000 ", "\u2009", "\u0085", "\u2028", "\u1680"]
+
+
+def _seps(rng, charset, n, p_ws=0.5):
+    """n separators between words: single blanks, or (p_ws) runs of blanks, tabs, Unicode spaces the charset carries"""
+    out = []
+    uni = []
+    if charset:
+        for w in WS_UNICODE:
+            try:
+                if w.encode(charset).decode(charset) == w:
+                    uni.append(w)
+            except (UnicodeError, LookupError):
+                pass
+    for _ in range(n):
+        r = rng.random()
+        if r >= p_ws:
+            out.append(" ")
+        elif uni and r < p_ws * 0.5:
+            out.append(rng.choice(uni))
+        else:
+            out.append(rng.choice(WS_ASCII))
+    return out
+
+
+def _ws_phrase(rng, alpha, charset, lo=2, hi=8):
+    """words separated by interior white space runs; never white space at either end"""
+    words = [_word(rng, alpha).strip() or "w" for _ in range(rng.randint(lo, hi))]
+    seps = _seps(rng, charset, len(words) - 1)
+    return "".join(w + s for w, s in zip(words, seps + [""]))
+
+
 ASCII_WORDS = ["hello", "report", "Q3", "budget", "From", "re:", "the", "2024", "meeting", "x=y", "a_b", "100%",
                "=?not?=", "semi;colon", "it's", "(note)", "<tag>", "&amp;", "tab"]
 
@@ -54,6 +137,11 @@ def _word(rng, alpha):
 
 def _phrase(rng, alpha, lo=1, hi=8):
     return " ".join(_word(rng, alpha) for _ in range(rng.randint(lo, hi)))
+
+
+def _py_strip_ok(s):
+    """no white space (str.isspace) at either end: EmailContent strips subject and plain body by design"""
+    return s == s.strip()
 
 
 def _text(rng, alpha, html=False):
@@ -187,7 +275,10 @@ def _enc_header(rng, text, charset):
         return text
     except UnicodeEncodeError:
         pass
-    return email.header.Header(text, charset=charset, maxlinelen=rng.choice([40, 76, 200])).encode()
+    try:
+        return email.header.Header(text, charset=charset, maxlinelen=rng.choice([40, 76, 200])).encode()
+    except UnicodeError:    # the stdlib's output charset (iso-2022-jp for shift_jis) cannot carry the text
+        return _hand_folded_subject(rng, text, charset)
 
 
 def _hand_folded_subject(rng, text, charset):
@@ -203,12 +294,55 @@ def _hand_folded_subject(rng, text, charset):
         if rng.random() < 0.5:
             words.append("=?%s?B?%s?=" % (charset, base64.b64encode(raw).decode("ascii")))
         else:
-            q = "".join(chr(b) if (48 <= b <= 57 or 65 <= b <= 90 or 97 <= b <= 122) else "=%02X" % b for b in raw)
+            us = rng.random() < 0.5 and charset.lower() not in ("utf-16", "utf-32")   # '_' stands for byte 0x20 (RFC 2047 4.2)
+            q = "".join(chr(b) if (48 <= b <= 57 or 65 <= b <= 90 or 97 <= b <= 122) else "_" if (b == 32 and us) else "=%02X" % b
+                        for b in raw)
             words.append("=?%s?q?%s?=" % (charset.upper(), q))
     out = words[0] if words else ""
     for w in words[1:]:
         out += rng.choice(["\n ", "\n\t", " ", "\n  "]) + w
     return out
+
+
+_EW = re.compile(r"=\?([^?\s]+)\?([bBqQ])\?([^?\s]*)\?=(?=[ \t]|$)")
+
+
+def ref_unfold(value: str) -> str:
+    """RFC 5322 2.2.3: unfolding removes the line break that is followed by white space — nothing else"""
+    return re.sub(r"\r?\n(?=[ \t])", "", value)
+
+
+def ref_decode_header(value: str) -> str:
+    """RFC 2047 reading of an unstructured header value, written independently of email.header: unfold, decode each
+    encoded word with its declared charset, drop the linear white space BETWEEN two encoded words (6.2), keep every
+    other character as it is."""
+    v = ref_unfold(value)
+    out, pos, prev_ew = [], 0, False
+    for m in _EW.finditer(v):
+        if m.start() > 0 and v[m.start() - 1] not in " \t":
+            continue
+        gap = v[pos:m.start()]
+        if not (prev_ew and gap.strip(" \t") == ""):
+            out.append(gap)
+        cs, enc, data = m.group(1), m.group(2).lower(), m.group(3)
+        if enc == "b":
+            raw = base64.b64decode(data)
+        else:
+            raw = re.sub(rb"=([0-9A-Fa-f]{2})", lambda k: bytes([int(k.group(1), 16)]), data.replace("_", " ").encode("ascii"))
+        out.append(raw.decode(cs))
+        pos, prev_ew = m.end(), True
+    out.append(v[pos:])
+    return "".join(out)
+
+
+def _fold_literal(rng, text):
+    """a literal (ASCII) header value, folded by hand before some of its white space characters: unfolding gives `text`"""
+    out = []
+    for i, c in enumerate(text):
+        if c in " \t" and i > 0 and rng.random() < 0.25:
+            out.append("\n")
+        out.append(c)
+    return "".join(out)
 
 
 def _mixed_subject(rng, text, charset):
@@ -220,7 +354,7 @@ def _mixed_subject(rng, text, charset):
     return value, (pre + " " if pre else "") + text + (" " + suf if suf else "")
 
 
-def _addr(rng, alpha):
+def _addr(rng, alpha, charset=None):
     name = ""
     r = rng.random()
     if r < 0.25:
@@ -230,23 +364,45 @@ def _addr(rng, alpha):
                            # non-ASCII names with address-list specials: formataddr emits them as RFC 2047 encoded words,
                            # so the comma / angle bracket only exists AFTER decoding (decode-then-split would mangle them)
                            "M\u00fcller, Hans", "S\u00f8ren <ops>", "\u5f20, \u4f1f", "Jos\u00e9; Mar\u00eda, Jr."])
+    elif r < 0.65:
+        # interior runs of blanks, tabs, Unicode spaces — ASCII (quoted-string / encoded word) or in the header charset
+        name = _ws_phrase(rng, alpha if rng.random() < 0.6 else "abcdefXYZ", charset, 2, 3).strip() or "x  y"
+        name = re.sub(r'[()<>\[\]:;@\\,"]', "", name) or "x  y"
     else:
         name = " ".join("".join(rng.choice(alpha or "abcdef").upper() if i == 0 else rng.choice(alpha or "abcdef")
                                 for i in range(rng.randint(2, 7))) for _ in range(rng.randint(1, 2)))
+    name = name.strip()     # white space at the ends of a display name is not asked for (mailparser strips it)
     local = rng.choice(["john", "a.b", "x+tag", "info", "no-reply", "u_1"]) + str(rng.randint(0, 99))
     dom = rng.choice(["example.com", "mail.example.org", "x.io", "sub.domain.co.uk"])
     return name, f"{local}@{dom}"
 
 
-def _fmt_addrs(pairs, charset):
+def _ws_run(name):
+    """interior white space other than single blanks"""
+    return bool(re.search(r"\s\s|[^\S ]", name))
+
+
+def _fmt_addrs(pairs, charset, sep=", ", rng=None):
     def one(p):
         cs = charset if charset != "us-ascii" else "utf-8"
         try:
             p[0].encode(cs)
         except (UnicodeEncodeError, LookupError):
             cs = "utf-8"
-        return email.utils.formataddr(p, charset=cs)
-    return ", ".join(one(p) for p in pairs)
+        if p[0].isascii() and _ws_run(p[0]):
+            # white space inside a quoted-string is part of the name (RFC 5322 3.2.4); an unquoted phrase would only
+            # be a sequence of words.  Or the ASCII name inside an encoded word.
+            if rng is not None and rng.random() < 0.4:
+                return "%s <%s>" % (_hand_folded_subject(rng, p[0], rng.choice(["utf-8", "us-ascii", "iso-8859-1"])).replace("\n", ""), p[1])
+            return '"%s" <%s>' % (p[0].replace("\\", "\\\\").replace('"', '\\"'), p[1])
+        if rng is not None and not p[0].isascii() and rng.random() < 0.4:
+            # encoded words written by hand, in the declared charset itself (the stdlib converts shift_jis to iso-2022-jp)
+            return "%s <%s>" % (_hand_folded_subject(rng, p[0], cs).replace("\n", ""), p[1])
+        try:
+            return email.utils.formataddr(p, charset=cs)
+        except UnicodeEncodeError:      # the stdlib's output charset (iso-2022-jp for shift_jis) cannot carry the name
+            return email.utils.formataddr(p, charset="utf-8")
+    return sep.join(one(p) for p in pairs)
 
 
 class Truth(dict):
@@ -257,12 +413,20 @@ def gen_message(rng, shape=None, for_mbox=False, max_att=3, crlf=False):
     """-> (raw bytes with LF line ends, truth)."""
     charset, alpha = rng.choice(CHARSETS)
     hcharset, halpha = rng.choice(CHARSETS[1:])
-    subject = _phrase(rng, halpha, 1, 10) if rng.random() < 0.9 else ""
-    frm = _addr(rng, halpha)
-    to = [_addr(rng, halpha) for _ in range(rng.choice([1, 1, 2, 3, 0]))]
-    cc = [_addr(rng, halpha) for _ in range(rng.choice([0, 0, 1, 2]))]
-    bcc = [_addr(rng, halpha) for _ in range(rng.choice([0, 0, 0, 1]))]
-    rto = [_addr(rng, halpha) for _ in range(rng.choice([0, 0, 1]))]
+    # letters from every part of the two repertoires (C1 controls of iso-8859-1, every row of the CJK sets, ...)
+    alpha, halpha = alphabet(rng, charset, alpha), alphabet(rng, hcharset, halpha)
+    ws_subject = rng.random() < 0.4      # interior runs of blanks, tabs, Unicode spaces
+    if rng.random() >= 0.9:
+        subject = ""
+    elif ws_subject:
+        subject = _ws_phrase(rng, halpha if rng.random() < 0.7 else "", hcharset).strip() or "x"
+    else:
+        subject = _phrase(rng, halpha, 1, 10).strip() or "x"
+    frm = _addr(rng, halpha, hcharset)
+    to = [_addr(rng, halpha, hcharset) for _ in range(rng.choice([1, 1, 2, 3, 0]))]
+    cc = [_addr(rng, halpha, hcharset) for _ in range(rng.choice([0, 0, 1, 2]))]
+    bcc = [_addr(rng, halpha, hcharset) for _ in range(rng.choice([0, 0, 0, 1]))]
+    rto = [_addr(rng, halpha, hcharset) for _ in range(rng.choice([0, 0, 1]))]
     when = dt.datetime(rng.randint(1990, 2035), rng.randint(1, 12), rng.randint(1, 28), rng.randint(0, 23),
                        rng.randint(0, 59), rng.randint(0, 59),
                        tzinfo=dt.timezone(dt.timedelta(minutes=rng.choice([0, 0, 60, -300, 330, 345, -720, 840]))))
@@ -351,36 +515,95 @@ def gen_message(rng, shape=None, for_mbox=False, max_att=3, crlf=False):
     subj_style = rng.choice(["header", "header", "hand", "mixed"])
     hand_value = None
     if subject:
-        if subj_style in ("hand", "mixed"):
-            try:
-                subject.encode("ascii")
-                root["Subject"] = subject
-                subj_style = "header"
-            except UnicodeEncodeError:
-                root["Subject"] = "@@HAND@@"
-                if subj_style == "mixed":
-                    hand_value, subject = _mixed_subject(rng, subject, hcharset)
-                else:
-                    hand_value = _hand_folded_subject(rng, subject, hcharset)
+        root["Subject"] = "@@HAND@@"
+        if subject.isascii() and subj_style in ("hand", "mixed") and rng.random() < 0.5:
+            # ASCII text inside encoded words (blanks as '_', '=20' or base64)
+            hand_value = _hand_folded_subject(rng, subject, rng.choice(["us-ascii", "utf-8", hcharset]))
+            subj_style = "hand-ascii"
+        elif subject.isascii() and rng.random() < 0.3:
+            root.replace_header("Subject", subject)     # the stdlib generator folds it (checked on the wire below)
+            subj_style = "header"
+        elif subject.isascii():
+            # literal text, on one line or folded by hand before white space (the stdlib generator is not asked to
+            # fold: what is on the wire is exactly this)
+            hand_value = _fold_literal(rng, subject) if rng.random() < 0.5 else subject
+            subj_style = "literal-folded" if "\n" in hand_value else "literal"
+        elif subj_style == "mixed":
+            hand_value, subject = _mixed_subject(rng, subject, hcharset)
+        elif subj_style == "hand":
+            hand_value = _hand_folded_subject(rng, subject, hcharset)
         else:
-            root["Subject"] = _enc_header(rng, subject, hcharset)
-    root["From"] = _fmt_addrs([frm], hcharset)
+            hand_value = _enc_header(rng, subject, hcharset)
+            try:        # the Header class is the writer here; if it does not write this text (it may drop white
+                ok = ref_decode_header(hand_value) == subject   # space at its own line breaks), write the words by hand
+            except (UnicodeError, LookupError, ValueError):
+                ok = False
+            if not ok:
+                hand_value = _hand_folded_subject(rng, subject, hcharset)
+                subj_style = "hand"
+    addr_values = {}
+
+    def put_addrs(header, pairs):
+        if any(_ws_run(n) for n, _ in pairs):
+            # a display name with interior white space runs: one line (or folded between two addresses), by hand
+            tag = "@@ADDR-%s@@" % header
+            root[header] = tag
+            addr_values[tag] = _fmt_addrs(pairs, hcharset, sep=rng.choice([", ", ", ", ",\n ", ",\n\t"]), rng=rng)
+            notes["ws_names"] = True
+        else:
+            root[header] = _fmt_addrs(pairs, hcharset, rng=rng)
+
+    put_addrs("From", [frm])
     if to:
-        root["To"] = _fmt_addrs(to, hcharset)
+        put_addrs("To", to)
     if cc:
-        root["Cc"] = _fmt_addrs(cc, hcharset)
+        put_addrs("Cc", cc)
     if bcc:
-        root["Bcc"] = _fmt_addrs(bcc, hcharset)
+        put_addrs("Bcc", bcc)
     if rto:
-        root["Reply-To"] = _fmt_addrs(rto, hcharset)
+        put_addrs("Reply-To", rto)
     root["Date"] = email.utils.format_datetime(when)
     root["Message-ID"] = mid
     raw = root.as_bytes()
     if hand_value is not None:
         raw = raw.replace(b"Subject: @@HAND@@", b"Subject: " + hand_value.encode("ascii"), 1)
+    elif subject:
+        # written by the stdlib generator: if what is on the wire does not read back as the text (a writer that
+        # re-spaces at its own line breaks), the text goes on the wire literally
+        m = re.search(rb"^Subject: (.*(?:\n[ \t].*)*)$", raw, re.M)
+        if not m or ref_decode_header(m.group(1).decode("ascii")) != subject:
+            raw = raw[:m.start(1)] + subject.encode("ascii") + raw[m.end(1):]
+            subj_style = "literal"
+    for tag, value in addr_values.items():
+        raw = raw.replace(tag.encode("ascii"), value.encode("ascii"), 1)
     notes["subject_style"] = subj_style if subject else "absent"
     t = Truth(subject=subject, from_=frm, to=to, cc=cc, bcc=bcc, reply_to=rto, when=when.isoformat(), message_id=mid,
               plain=plain or "", html=html or "", attachments=[(n, m, d) for n, m, d in attachments], notes=notes)
+    return raw, t
+
+
+def gen_repertoire_message(rng, charset):
+    """-> (raw, truth): a message whose plain body carries EVERY character of the charset's repertoire (one part per
+    line, base64 or quoted-printable) and so does the HTML body; Subject and sender name carry samples of the parts"""
+    parts = repertoire(charset) or [list("abc")]
+    body = "BEGIN\n" + "\n".join("|" + "".join(p) + "|" for p in parts) + "\nEND"
+    html_t = "<html><body><p>" + "<br>\n".join("".join(p) for p in parts) + "</p></body></html>"
+    subject = "all " + "".join(rng.choice(p) for p in rng.sample(parts, min(len(parts), 12))) + " parts"
+    alt = MIMEMultipart("alternative")
+    cte = rng.choice(["base64", "quoted-printable"])
+    alt.attach(_leaf("text", "plain", body.encode(charset), cte, params={"charset": charset}))
+    alt.attach(_leaf("text", "html", html_t.encode(charset), "base64", params={"charset": charset}))
+    name = "N " + "".join(rng.choice(p) for p in rng.sample(parts, min(len(parts), 6))) + " n"
+    hcs = charset if charset != "us-ascii" else "utf-8"
+    alt["Subject"] = "@@HAND@@"
+    alt["From"] = "%s <rep@example.com>" % _hand_folded_subject(rng, name, hcs).replace("\n", "")
+    when = dt.datetime(2024, 1, 1, 10, 0, 0, tzinfo=dt.timezone.utc)
+    alt["Date"] = email.utils.format_datetime(when)
+    alt["Message-ID"] = "<rep.%s@example.com>" % charset
+    raw = alt.as_bytes().replace(b"Subject: @@HAND@@", b"Subject: " + _hand_folded_subject(rng, subject, hcs).encode("ascii"), 1)
+    t = Truth(subject=subject, from_=(name, "rep@example.com"), to=[], cc=[], bcc=[], reply_to=[], when=when.isoformat(),
+              message_id="<rep.%s@example.com>" % charset, plain=body, html=html_t, attachments=[],
+              notes={"shape": "repertoire", "charset": charset, "hcharset": hcs, "cte_plain": cte, "cte_html": "base64"})
     return raw, t
 
 
